@@ -506,6 +506,64 @@ def check_parser_state_reads(repo, rep):
                'no read of %s on the parse path' % sorted(attrs))
 
 
+def ply_parser_mutators():
+    """Methods of ply's LRParser other than parse* that (re)assign
+    attributes of the parser object -- derived from ply's source."""
+    try:
+        import ply.yacc as yaccmod
+        with open(yaccmod.__file__) as f:
+            tree = ast.parse(f.read())
+    except Exception:
+        return {}
+    out = {}
+    for n in ast.walk(tree):
+        if isinstance(n, ast.ClassDef) and n.name == 'LRParser':
+            for m in n.body:
+                if isinstance(m, ast.FunctionDef) and \
+                        not m.name.startswith(('parse', '__')):
+                    ws = sorted({str(w.method or w.kind)
+                                 for w in effects.writes_in(m)
+                                 if w.root == 'self'})
+                    if ws:
+                        out[m.name] = ws
+    return out
+
+
+def check_parser_only_parses(repo, rep):
+    """R01i: the one LRParser of an engine is shared by all its parses, and
+    ply re-binds its stacks at the start of each; any other method of it
+    that stores into the parser (restart, errok, set_defaulted_states ...)
+    called from library code on the parse path resets or edits the state of
+    whichever parse started last -- another thread's."""
+    mut = ply_parser_mutators()
+    rep.extra_cov['ply_parser_mutating_methods'] = mut
+    rep.ob('R01i', 'ply.yacc:LRParser/mutating-methods', 'restart' in mut,
+           'could not derive the state-changing methods of ply\'s LRParser',
+           nontrivial=True)
+    n = 0
+    scope = {fi.key: fi for fi, role in parse_path_functions(repo)}
+    for fi, call in parse_sites(repo):
+        scope.setdefault(fi.key, fi)
+    for fi in scope.values():
+        for c in model.calls_in(fi.node, shallow=True):
+            f = c.func
+            if not (isinstance(f, ast.Attribute) and f.attr in mut):
+                continue
+            if repo.resolve(fi.module, f, model.scope_locals(fi)):
+                continue
+            n += 1
+            rep.ob('R01i', '%s/%s()' % (fi.key, f.attr), False,
+                   '`%s` on the parse path: ply\'s %s() stores into the '
+                   'parser object (%s) that all parses of the engine share; '
+                   'a parse running in another thread loses its stacks and '
+                   'returns a wrong tree or fails' % (
+                       model.norm(c), f.attr, ', '.join(mut[f.attr])),
+                   loc=fi.module.loc(c), construct=model.norm(c))
+    if not n:
+        rep.ob('R01i', 'parse-path/parser-only-parses', True,
+               'no call of %s on the parse path' % sorted(mut))
+
+
 def ply_facts(rep):
     """Facts about ply derived from its source (recorded, and the premise
     'a ply lexer is parse-mutable' is checked)."""
@@ -802,6 +860,8 @@ def check_clone_is_independent(repo, rep):
 
 
 def run(repo, rep):
+    rep.rule('R01i', 'PARSER-ONLY-PARSES: library code calls no method of '
+             'the shared ply parser that stores into it, other than parse()')
     rep.rule('R01h', 'NO-CLONE-SHARED-PLY-STATE: the parse path calls no '
              'method of the ply lexer that mutates a container shared by its '
              'clones (push_state / pop_state)')
@@ -841,6 +901,7 @@ def run(repo, rep):
     check_stateless(repo, rep)
     check_error_hook(repo, rep)
     check_parser_state_reads(repo, rep)
+    check_parser_only_parses(repo, rep)
     check_eval_globals(repo, rep)
     check_engine_state_is_per_engine(repo, rep)
     check_clone_is_independent(repo, rep)
@@ -850,3 +911,8 @@ def run(repo, rep):
              'setting (a parse that lifts a process limit and restores it '
              'is seen by every concurrent parse)')
     c18.check_no_process_global_setters(repo, rep, 'R18g')
+    rep.rule('R18h', 'see C18: no function that outlives the call that made '
+             'it captures a one-shot iterator')
+    c18.check_no_captured_iterators(repo, rep, 'R18h', (
+        'yaql.language.parser', 'yaql.language.lexer',
+        'yaql.language.factory'))
